@@ -33,7 +33,7 @@ type Conn struct {
 	mu         sync.Mutex // real; short critical sections only
 	rbuf       []byte
 	rEOF       bool
-	rwake      chan struct{}
+	rwaiters   []chan struct{}
 	closedDUT  bool
 	peerClosed bool
 	peerReset  bool
@@ -78,6 +78,9 @@ func (c *Conn) Read(p []byte) (int, error) {
 		if len(c.rbuf) > 0 {
 			n := copy(p, c.rbuf)
 			c.rbuf = c.rbuf[n:]
+			if len(c.rbuf) > 0 {
+				c.wakeOneReaderLocked() // bytes left for another blocked reader (if any)
+			}
 			c.mu.Unlock()
 			return n, nil
 		}
@@ -89,20 +92,38 @@ func (c *Conn) Read(p []byte) (int, error) {
 			}
 			return 0, io.EOF
 		}
-		if c.rwake == nil {
-			c.rwake = make(chan struct{})
+		w := make(chan struct{})
+		c.rwaiters = append(c.rwaiters, w)
+		if len(c.rwaiters) > 1 {
+			c.env.probe("concurrent_readers_on_one_connection")
 		}
-		w := c.rwake
 		c.mu.Unlock()
 		<-w // durable block inside the bubble
 	}
 }
 
+// wakeReadersLocked wakes every blocked reader (close / EOF).
 func (c *Conn) wakeReadersLocked() {
-	if c.rwake != nil {
-		close(c.rwake)
-		c.rwake = nil
+	for _, w := range c.rwaiters {
+		close(w)
 	}
+	c.rwaiters = nil
+}
+
+// wakeOneReaderLocked wakes one blocked reader. Which one gets the bytes when several
+// goroutines read the same connection is the kernel's choice: a seeded choice here.
+func (c *Conn) wakeOneReaderLocked() {
+	n := len(c.rwaiters)
+	if n == 0 {
+		return
+	}
+	i := 0
+	if n > 1 {
+		i = c.rng.Intn(n)
+	}
+	w := c.rwaiters[i]
+	c.rwaiters = append(c.rwaiters[:i], c.rwaiters[i+1:]...)
+	close(w)
 }
 
 // Write implements net.Conn for the DUT.
@@ -206,7 +227,7 @@ func (c *Conn) deliver(b []byte) {
 		return
 	}
 	c.rbuf = append(c.rbuf, b...)
-	c.wakeReadersLocked()
+	c.wakeOneReaderLocked()
 	c.mu.Unlock()
 }
 
